@@ -67,6 +67,16 @@ type VC struct {
 	nFunIndexed int
 	topFrame    *Frame
 	assertBlk   []*ssa.BasicBlock
+	caseGroups  []caseGroup
+	divMemo     map[string][2]Term
+}
+
+// caseGroup: mutually exclusive, exhaustive conditions (the iteration in which
+// an unrolled loop was left); obligations after the loop can be split on them.
+type caseGroup struct {
+	conds   []Term
+	nAssert int
+	blocks  map[*ssa.BasicBlock]bool
 }
 
 func newVC(eng *Engine, fn string) *VC {
@@ -783,8 +793,83 @@ func (vc *VC) pathSplits(ob *Obligation, limit int) []pathInfo {
 	if !dfs(ob.blk) {
 		return nil
 	}
+	// split further on the exit iteration of unrolled loops executed before
+	for _, g := range vc.caseGroups {
+		if g.nAssert > ob.nAsserts || len(g.conds) < 2 {
+			continue
+		}
+		if len(out)*len(g.conds) > limit {
+			continue
+		}
+		var next []pathInfo
+		for _, pi := range out {
+			for k, c := range g.conds {
+				lits := append([]Term{}, pi.lits...)
+				lits = append(lits, c)
+				for j, o := range g.conds {
+					if j != k {
+						lits = append(lits, not(o))
+					}
+				}
+				next = append(next, pathInfo{lits: lits, blocks: pi.blocks})
+			}
+		}
+		out = next
+	}
 	if len(out) <= 1 {
 		return nil
 	}
 	return out
+}
+
+// divmodConst returns fresh q, r with x = c*q + r and 0 <= r < c (c a positive
+// literal, x non-negative).
+func (vc *VC) divmodConst(x Term, c string) (Term, Term) {
+	if vc.divMemo == nil {
+		vc.divMemo = map[string][2]Term{}
+	}
+	key := x + "/" + c
+	if qr, ok := vc.divMemo[key]; ok {
+		return qr[0], qr[1]
+	}
+	q := vc.fresh("q", "Int")
+	r := vc.fresh("r", "Int")
+	vc.addAssertGlobal(fmt.Sprintf("(assert (and (= %s (+ (* %s %s) %s)) (<= 0 %s) (< %s %s) (=> (>= %s 0) (>= %s 0))))", x, c, q, r, r, r, c, x, q))
+	vc.divMemo[key] = [2]Term{q, r}
+	return q, r
+}
+
+// wrapT reduces a mathematical integer to the range of t (exact wrap-around)
+// using the linear quotient/remainder encoding.
+func (vc *VC) wrapT(t types.Type, x Term) Term {
+	if n, ok := litInt(x); ok {
+		_ = n
+		return wrap(t, x)
+	}
+	bits := intBits(t)
+	m := pow2T(bits)
+	xn := vc.define("w", "Int", x)
+	if isUnsigned(t) {
+		_, r := vc.divmodAny(xn, m)
+		return r
+	}
+	h := pow2T(bits - 1)
+	_, r := vc.divmodAny(vc.define("w", "Int", sx("+", xn, h)), m)
+	return sx("-", r, h)
+}
+
+// divmodAny: x = c*q + r with 0 <= r < c for any integer x (floor division).
+func (vc *VC) divmodAny(x Term, c string) (Term, Term) {
+	if vc.divMemo == nil {
+		vc.divMemo = map[string][2]Term{}
+	}
+	key := x + "//" + c
+	if qr, ok := vc.divMemo[key]; ok {
+		return qr[0], qr[1]
+	}
+	q := vc.fresh("q", "Int")
+	r := vc.fresh("r", "Int")
+	vc.addAssertGlobal(fmt.Sprintf("(assert (and (= %s (+ (* %s %s) %s)) (<= 0 %s) (< %s %s)))", x, c, q, r, r, r, c))
+	vc.divMemo[key] = [2]Term{q, r}
+	return q, r
 }
